@@ -406,11 +406,46 @@ def replay_all(ctx, thorough, vacuity=True, only=None):
 def thread_chunk(job):
     from harness import sched
     import random
-    seed, bound, limit = job
+    seed, bound, limit = job[:3]
+    steady = len(job) > 3
     w, ps = template()
     rnd = random.Random(seed)
     recs = []
     state = {}
+
+    def make_steady(run):
+        # nothing happens to the processes: both threads must be handed the objects an earlier,
+        # completed pass cached, whatever the interleaving
+        for q in list(w.procs):
+            if q != w.caller_pid:
+                del w.procs[q]
+        ps.process_iter.cache_clear()
+        for q in (1, 2, 3):
+            w.spawn(q, start=50)
+        cached = {p.pid: p for p in ps.process_iter()}
+        out, foreign = [[], []], []
+        state["out"], state["foreign"] = out, foreign
+
+        def body(i):
+            def f():
+                for p in ps.process_iter():
+                    out[i].append(p.pid)
+                    if p is not cached.get(p.pid):
+                        foreign.append(p.pid)
+            return f
+        return [body(0), body(1)]
+
+    def on_steady(run, plan, err):
+        rec = {"errs": [("" if t.exc is None else type(t.exc).__name__) for t in run.ts],
+               "yielded": state["out"], "listing": sorted(list(w.procs)), "plan": plan, "stale": [],
+               "foreign": sorted(set(state["foreign"]))}
+        if err is not None:
+            rec["errs"] = ["deadlock: %s" % err, ""]
+        recs.append(rec)
+
+    if steady:
+        sched.explore(make_steady, ("psutil/__init__.py",), bound=1, limit=limit, rnd=rnd, on_run=on_steady)
+        return recs
 
     def make_bodies(run):
         for q in list(w.procs):
@@ -476,6 +511,7 @@ def thread_chunk(job):
 def check_threads(ctx, thorough):
     import shutil
     jobs = [(ctx.seed * 17 + i, 3 if thorough else 2, 600 if thorough else 150) for i in range(8)]
+    jobs.append((ctx.seed, 1, 4000 if thorough else 1500, "steady"))
     res = forkpool.map_fork(thread_chunk, jobs, timeout=1500)
     recs = []
     for st, val in res:
@@ -488,7 +524,7 @@ def check_threads(ctx, thorough):
     tf = os.path.join(d, "t.ndjson")
     with open(tf, "w") as f:
         for r0 in recs:
-            f.write(json.dumps({k: r0[k] for k in ("errs", "yielded", "listing", "stale")}) + "\n")
+            f.write(json.dumps({k: r0.get(k, []) for k in ("errs", "yielded", "listing", "stale", "foreign")}) + "\n")
     cfg = os.path.join(d, "t.cfg")
     tlc.write_cfg(cfg, {}, invariants=["Accepted"])
     r = tlc.run("ProcIterDrainTrace", cfg, workers=1, env={"TRACE_FILE": tf}, timeout=900)
@@ -503,10 +539,11 @@ def check_threads(ctx, thorough):
     for tag, body in [p for p in r.printed if p[0] == "REJECTED"][:3]:
         vals = tlc.parse_value("<<" + body + ">>")
         r0 = recs[vals[0] - 1]
-        names = [n for n, ok in zip(["NoError", "Ordered", "Listed", "Fresh"], vals[1]) if not ok]
+        names = [n for n, ok in zip(["NoError", "Ordered", "Listed", "Fresh", "Same"], vals[1]) if not ok]
         ctx.disagree("threads:" + ",".join(names) + ":" + ",".join(e for e in r0["errs"] if e),
                      "two threads at once (schedule %s): errors %s, yielded %s; PIDs still served by the object of their "
-                     "former owner three passes later: %s" % (r0["plan"], r0["errs"], r0["yielded"], r0["stale"]), r0)
+                     "former owner three passes later: %s; PIDs cached and untouched for which a thread was handed another "
+                     "object: %s" % (r0["plan"], r0["errs"], r0["yielded"], r0["stale"], r0.get("foreign", [])), r0)
 
 
 def replay(ctx, data):
